@@ -6,11 +6,13 @@ V = os.path.dirname(os.path.dirname(os.path.abspath(__file__)))
 props = [json.loads(l) for l in open(os.path.join(V, "properties.jsonl"))]
 na_path = os.path.join(V, "manifest.d", "not_applicable.json")
 na_src = json.load(open(na_path)) if os.path.exists(na_path) else {}
+hold_path = os.path.join(V, "manifest.d", "HOLD")
+hold = set(open(hold_path).read().split()) if os.path.exists(hold_path) else set()
 checks, na = [], []
 for p in props:
     pid = p["id"]
     f = os.path.join(V, "manifest.d", pid + ".json")
-    if os.path.exists(f) and os.path.exists(os.path.join(V, "lib", "props", pid.lower() + ".py")):
+    if pid not in hold and os.path.exists(f) and os.path.exists(os.path.join(V, "lib", "props", pid.lower() + ".py")):
         c = json.load(open(f))
         checks.append(dict(property_id=pid, quick_cmd="./check %s --tier quick" % pid,
                            thorough_cmd="./check %s --tier thorough" % pid,
